@@ -1,1 +1,267 @@
-//! reference model `keymap` (filled in by the property that needs it)
+//! Reference model for key-chord maps (C18): a last-writer-wins, prefix-free dictionary of
+//! chords, and the two rules the statement gives for the stateful matcher.
+//!
+//! Written from the property statement only; it shares no code with `surf_n_term::keys`.
+//! The dictionary is a flat ordered map from complete chords to values -- deliberately not a
+//! trie -- so prefix/extension supersession is computed by scanning, not by structure.
+use std::collections::BTreeMap;
+
+#[derive(Debug, Clone, PartialEq, Eq, Hash)]
+pub enum Lookup<V> {
+    /// the chord is bound (and not superseded) to this value
+    Success(V),
+    /// the chord is a proper prefix of at least one bound chord
+    Continue,
+    Failure,
+}
+
+impl<V> Lookup<V> {
+    pub fn kind(&self) -> &'static str {
+        match self {
+            Lookup::Success(_) => "success",
+            Lookup::Continue => "continue",
+            Lookup::Failure => "failure",
+        }
+    }
+}
+
+/// What a registration displaced at exactly the registered chord (documented return value of
+/// `register`: "previously registered value or key_map associated with provided chord").
+#[derive(Debug, Clone, PartialEq, Eq)]
+pub enum Displaced<K, V> {
+    /// the chord was neither bound nor a prefix of a bound chord
+    Nothing,
+    /// the chord was bound to this value
+    Value(V),
+    /// the chord was a proper prefix of these bound chords (given as the remaining keys
+    /// after the chord, with their values)
+    Extensions(BTreeMap<Vec<K>, V>),
+}
+
+#[derive(Debug, Clone, PartialEq, Eq, Default)]
+pub struct Dict<K: Ord + Clone, V: Clone> {
+    bound: BTreeMap<Vec<K>, V>,
+}
+
+fn is_proper_prefix<K: PartialEq>(p: &[K], c: &[K]) -> bool {
+    p.len() < c.len() && c[..p.len()] == *p
+}
+
+impl<K: Ord + Clone, V: Clone> Dict<K, V> {
+    pub fn new() -> Self {
+        Self { bound: BTreeMap::new() }
+    }
+
+    /// Bind `chord` to `value`; bound chords that are proper prefixes or extensions of it are
+    /// superseded (removed). The empty chord binds nothing.
+    pub fn register(&mut self, chord: &[K], value: V) -> Displaced<K, V> {
+        if chord.is_empty() {
+            return Displaced::Nothing;
+        }
+        let mut displaced = match self.bound.remove(chord) {
+            Some(v) => Displaced::Value(v),
+            None => Displaced::Nothing,
+        };
+        let related: Vec<Vec<K>> = self
+            .bound
+            .keys()
+            .filter(|c| is_proper_prefix(chord, c) || is_proper_prefix(c, chord))
+            .cloned()
+            .collect();
+        let mut extensions = BTreeMap::new();
+        for c in related {
+            let v = self.bound.remove(&c).unwrap();
+            if is_proper_prefix(chord, &c) {
+                extensions.insert(c[chord.len()..].to_vec(), v);
+            }
+        }
+        if !extensions.is_empty() {
+            displaced = Displaced::Extensions(extensions);
+        }
+        self.bound.insert(chord.to_vec(), value);
+        displaced
+    }
+
+    pub fn lookup(&self, chord: &[K]) -> Lookup<V> {
+        if let Some(v) = self.bound.get(chord) {
+            return Lookup::Success(v.clone());
+        }
+        if self.bound.keys().any(|c| is_proper_prefix(chord, c)) {
+            return Lookup::Continue;
+        }
+        Lookup::Failure
+    }
+
+    /// The bound chords with their values, sorted.
+    pub fn list(&self) -> Vec<(Vec<K>, V)> {
+        self.bound.iter().map(|(k, v)| (k.clone(), v.clone())).collect()
+    }
+
+    pub fn len(&self) -> usize {
+        self.bound.len()
+    }
+
+    pub fn is_empty(&self) -> bool {
+        self.bound.is_empty()
+    }
+
+    /// Override merging: every binding of `other` registered on top of `self`.
+    pub fn register_override(&mut self, other: &Self) {
+        for (c, v) in other.bound.iter() {
+            self.register(c, v.clone());
+        }
+    }
+
+    /// `key` begins some bound chord
+    pub fn begins_chord(&self, key: &K) -> bool {
+        self.bound.keys().any(|c| c.first() == Some(key))
+    }
+
+    /// `key` occurs anywhere in some bound chord
+    pub fn occurs(&self, key: &K) -> bool {
+        self.bound.keys().any(|c| c.contains(key))
+    }
+
+    /// Internal consistency of the model itself: no bound chord is a proper prefix of another.
+    pub fn prefix_free(&self) -> bool {
+        let keys: Vec<&Vec<K>> = self.bound.keys().collect();
+        keys.iter().all(|a| keys.iter().all(|b| !is_proper_prefix(a, b)))
+    }
+}
+
+/// What the statement demands of the stateful matcher's answer at one key of a typed sequence.
+#[derive(Debug, Clone, PartialEq, Eq)]
+pub enum Expect<V> {
+    /// last key of a bound chord typed from an idle state (`after_unbound == false`), or
+    /// immediately after an unbound key
+    Fire { value: V, after_unbound: bool },
+    /// inside (not at the end of) a bound chord typed from an idle state
+    Silent,
+    /// the statement only demands soundness here (see `sound`)
+    Free,
+}
+
+/// The demands of the statement on a whole typed key sequence, fed to a fresh matcher.
+///
+/// * Idle positions: the start, and the position after a demanded firing. A bound chord typed
+///   from an idle position fires exactly at its last key (silent before).
+/// * A key that begins no bound chord is "unbound". The rule "an unbound key never prevents
+///   the chord typed immediately after it from firing" is applied where it is unambiguous:
+///   when the unbound key is met at an idle / just-after-unbound position (nothing can be
+///   pending), or when it occurs in no bound chord at all (so it cannot continue a pending
+///   chord either). After it, a bound chord must fire at its last key.
+/// * Everything else (e.g. a partly typed chord abandoned by a key that itself begins a chord)
+///   is left to `sound`.
+pub fn matcher_demands<K: Ord + Clone, V: Clone>(dict: &Dict<K, V>, keys: &[K]) -> Vec<Expect<V>> {
+    let mut out = vec![Expect::Free; keys.len()];
+    #[derive(PartialEq)]
+    enum At {
+        Idle,
+        AfterUnbound,
+        Unknown,
+    }
+    let mut at = At::Idle;
+    let mut p = 0;
+    while p < keys.len() {
+        match at {
+            At::Idle | At::AfterUnbound => {
+                // the (unique, by prefix-freeness) bound chord starting here, if completely typed
+                let hit = (p + 1..=keys.len()).find_map(|q| match dict.lookup(&keys[p..q]) {
+                    Lookup::Success(v) => Some((q, v)),
+                    _ => None,
+                });
+                if let Some((q, v)) = hit {
+                    if at == At::Idle {
+                        for e in out[p..q - 1].iter_mut() {
+                            *e = Expect::Silent;
+                        }
+                    }
+                    out[q - 1] = Expect::Fire { value: v, after_unbound: at == At::AfterUnbound };
+                    at = At::Idle;
+                    p = q;
+                } else if !dict.begins_chord(&keys[p]) {
+                    at = At::AfterUnbound;
+                    p += 1;
+                } else {
+                    // keys[p] begins a bound chord but no bound chord is completed from here:
+                    // keys[p..q] is the longest typed proper prefix of a bound chord
+                    let mut q = p + 1;
+                    while q < keys.len() && matches!(dict.lookup(&keys[p..q + 1]), Lookup::Continue) {
+                        q += 1;
+                    }
+                    if at == At::Idle {
+                        for e in out[p..q].iter_mut() {
+                            *e = Expect::Silent;
+                        }
+                    }
+                    // keys[q] (if any) abandons the chord: the statement says nothing about it
+                    at = At::Unknown;
+                    p = q;
+                }
+            }
+            At::Unknown => {
+                if !dict.occurs(&keys[p]) {
+                    at = At::AfterUnbound;
+                }
+                p += 1;
+            }
+        }
+    }
+    out
+}
+
+/// Soundness: an answer `value` at position `i` is only acceptable when some chord ending at
+/// key `i` of the typed sequence is bound to `value`.
+pub fn sound<K: Ord + Clone, V: Clone + PartialEq>(dict: &Dict<K, V>, keys: &[K], i: usize, value: &V) -> bool {
+    (0..=i).any(|p| matches!(dict.lookup(&keys[p..=i]), Lookup::Success(ref v) if v == value))
+}
+
+#[cfg(test)]
+mod tests {
+    use super::*;
+
+    #[test]
+    fn supersession_both_directions() {
+        let mut d: Dict<u8, u32> = Dict::new();
+        assert_eq!(d.register(&[1], 0), Displaced::Nothing);
+        assert_eq!(d.lookup(&[1]), Lookup::Success(0));
+        assert_eq!(d.lookup(&[1, 2]), Lookup::Failure);
+        assert_eq!(d.register(&[1, 2], 1), Displaced::Nothing); // prefix [1] superseded silently
+        assert_eq!(d.register(&[1, 3, 4], 2), Displaced::Nothing);
+        assert_eq!(d.lookup(&[1]), Lookup::Continue);
+        assert_eq!(d.lookup(&[1, 3]), Lookup::Continue);
+        assert_eq!(d.lookup(&[1, 2]), Lookup::Success(1));
+        assert!(d.prefix_free());
+        let r = d.register(&[1], 3);
+        assert_eq!(
+            r,
+            Displaced::Extensions([(vec![2], 1), (vec![3, 4], 2)].into_iter().collect())
+        );
+        assert_eq!(d.list(), vec![(vec![1], 3)]);
+        assert_eq!(d.register(&[1], 4), Displaced::Value(3));
+    }
+
+    #[test]
+    fn demands() {
+        let mut d: Dict<char, u32> = Dict::new();
+        d.register(&['a', 'b'], 0);
+        d.register(&['c'], 1);
+        let k: Vec<char> = "abxabacb".chars().collect();
+        let e = matcher_demands(&d, &k);
+        assert_eq!(
+            e,
+            vec![
+                Expect::Silent,
+                Expect::Fire { value: 0, after_unbound: false },
+                Expect::Free, // x unbound
+                Expect::Free, // a after unbound (no silence demanded)
+                Expect::Fire { value: 0, after_unbound: true },
+                Expect::Silent, // a from idle
+                Expect::Free,   // c abandons "a": nothing demanded
+                Expect::Free,
+            ]
+        );
+        assert!(sound(&d, &k, 6, &1));
+        assert!(!sound(&d, &k, 6, &0));
+    }
+}
